@@ -193,6 +193,43 @@ def flow_cross(n, eng, fault_at, ta, tb):
     check(n, 'B', 'the end')
 
 
+def flow_after_rekey(n, eng, fault_at, who='A', then='soft'):
+    """IKE_SA rekey started by `who`; afterwards the OTHER endpoint is the first to use the new IKE_SA (its own CHILD_SA rekey / delete / ACQUIRE /
+    liveness probe), then `who` does the same"""
+    a, b = n.establish()
+    me, E = (a, n.A) if who == 'A' else (b, n.B)
+    world.ENV.now = me.rekey_ike_sa_at + 10
+    with E:
+        req = me.check_rekey_ike_sa_timer()
+    pump(n, 'B' if who == 'A' else 'A', req, 'IKE_SA rekey')
+    arm_fault(eng, n, fault_at, 4)
+    S = MODS['ikesa'].IkeSa.State
+    for speaker in (('B', 'A') if who == 'A' else ('A', 'B')):
+        ctl = n.a if speaker == 'A' else n.b
+        live = [e for e in ctl.ike_sas if e.state == S.ESTABLISHED]
+        if len(live) != 1:
+            raise Violation(f'after the rekey {speaker} holds {len(live)} established IKE_SAs')
+        sa, SE = live[0], (n.A if speaker == 'A' else n.B)
+        if then == 'dpd':
+            world.ENV.now = sa.start_dpd_at + 3600
+            with SE:
+                r = sa.check_dead_peer_detection_timer()
+        elif then == 'acquire':
+            r = n.acquire(speaker, sport=9300, dport=23) if speaker == 'A' else n.acquire(speaker, sport=23, dport=9300)
+        else:
+            if not sa.child_sas:
+                continue
+            r = n.expire(speaker, sa.child_sas[0].inbound_spi, then == 'hard')
+        check(n, speaker, f'{then} trigger on the new IKE_SA')
+        if r is not None:
+            pump(n, 'B' if speaker == 'A' else 'A', r, f'{then} on the new IKE_SA by {speaker}')
+        for w in 'AB':
+            check(n, w, f'{then} by {speaker} on the IKE_SA created by the rekey of {who}')
+            c2 = n.a if w == 'A' else n.b
+            if not [e for e in c2.ike_sas if e.state == S.ESTABLISHED] and n.A.kernel.fail_at is None and n.B.kernel.fail_at is None:
+                raise Violation(f'{w} lost its established IKE_SA after {then} by {speaker}')
+
+
 CROSS = ('soft', 'hard', 'acquire', 'rekey_ike', 'del_ike')
 FLOWS = {
     'initial': (flow_initial, {}, {}),
@@ -216,6 +253,10 @@ FLOWS = {
 FLOWS.update({'del_child_A_same_spi': (flow_del_child, {'who': 'A'}, {}), 'del_child_B_same_spi': (flow_del_child, {'who': 'B'}, {}),
               'del_ike_A_same_spi': (flow_del_ike, {'who': 'A'}, {}), 'rekey_ike_B_same_spi': (flow_rekey_ike, {'who': 'B'}, {})})
 FLOWS.update({f'del_ike_{w}_{k}_children': (flow_del_ike, {'who': w, 'children': k}, {}) for w in 'AB' for k in (2, 3)})
+FLOWS.update({f'after_rekey_{w}_{t}': (flow_after_rekey, {'who': w, 'then': t}, {}) for w in 'AB' for t in ('soft', 'hard', 'acquire', 'dpd')})
+MIXED = {'mode': 'tunnel'}
+FLOWS.update({'mixed_family_rekey_child': (flow_rekey_child, {'who': 'A'}, MIXED), 'mixed_family_del_child': (flow_del_child, {'who': 'B'}, MIXED),
+              'mixed_family_del_ike': (flow_del_ike, {'who': 'A'}, MIXED)})
 FLOWS.update({f'cross_{ta}_{tb}': (flow_cross, {'ta': ta, 'tb': tb}, {}) for ta in CROSS for tb in CROSS})
 
 
@@ -234,6 +275,14 @@ def h_flow(name, fault_at):
         def env_setup(env):
             env.urandom_hook = lambda k: b'SPI!' if k == 4 else None
     n = world.Net(env_setup=env_setup, **conf)
+    if name.startswith('mixed_family'):
+        # IPv6 networks protected by a tunnel between IPv4 endpoints: the selector family differs from the family of the SA's addresses
+        n.confdict['alice']['protect'][0].update(my_subnet='2001:db8:a::/48', peer_subnet='2001:db8:b::/48')
+        n.confdict['bob']['protect'][0].update(my_subnet='2001:db8:b::/48', peer_subnet='2001:db8:a::/48')
+        cf = MODS['configuration'].Configuration([world.IP1, world.IP2], n.confdict)
+        n.a.configuration = cf
+        n.b.configuration = cf
+        n.mixed = True
     if name == 'refused_proposal':
         n.confdict['bob']['protect'][0]['encr'] = ['aes128']
         n.confdict['alice']['protect'][0]['encr'] = ['aes256']
